@@ -15,11 +15,20 @@ impl GenerationPass for LivenessPass {
         crate::verif::pass_begin("liveness", cfg.nodes().len());
         #[allow(clippy::mutable_key_type)]
         let mut visited = HashSet::new();
+        // The definition sets flow forwards while the sweeps run backwards, and
+        // the first visit of a node only sees the predecessors visited so far:
+        // round a loop two solutions can then alternate for ever. Once the
+        // sweeps have had ample time to settle, a set may only shrink.
+        let settle = 2 * cfg.nodes().len() + 8;
+        let mut sweeps = 0;
         while changed {
             changed = false;
+            sweeps += 1;
+            let narrowing = sweeps > settle;
             #[cfg(feature = "rva_verif")]
             crate::verif::sweep();
             for node in cfg.iter().rev() {
+                let seen_before = narrowing && visited.contains(&node);
                 // live_out[n] = U live_in[s] for all s in next[n]
                 let live_out = node
                     .nexts()
@@ -64,7 +73,7 @@ impl GenerationPass for LivenessPass {
                         | node.gen_reg();
 
                     changed |= node.set_live_in(live_in);
-                    changed |= node.set_u_def(u_def);
+                    changed |= node.set_u_def(if seen_before { u_def & node.u_def() } else { u_def });
                 } else if node.is_ecall() {
                     let (args, rets) = node.known_ecall_signature().unwrap_or_default();
 
@@ -86,7 +95,7 @@ impl GenerationPass for LivenessPass {
                         | Register::ecall_always_argument_set()
                         | args;
                     changed |= node.set_live_in(live_in);
-                    changed |= node.set_u_def(u_def);
+                    changed |= node.set_u_def(if seen_before { u_def & node.u_def() } else { u_def });
                 } else if node.is_return() {
                     // live_in[n] = live_in[n] U gen[n]
                     let live_in = node.live_in() | node.gen_reg();
@@ -101,7 +110,7 @@ impl GenerationPass for LivenessPass {
                         .map(|x| x.u_def())
                         .reduce(|acc, x| acc & x)
                         .unwrap_or_default();
-                    changed |= node.set_u_def(u_def);
+                    changed |= node.set_u_def(if seen_before { u_def & node.u_def() } else { u_def });
                 } else if node.is_function_entry() {
                     // live_in[n] = gen[n] U (live_out[n] - kill[n])
                     let live_in = (node.live_out() - node.kill_reg()) | node.gen_reg();
@@ -110,7 +119,7 @@ impl GenerationPass for LivenessPass {
                     let u_def = live_in & Register::argument_set();
 
                     changed |= node.set_live_in(live_in);
-                    changed |= node.set_u_def(u_def);
+                    changed |= node.set_u_def(if seen_before { u_def & node.u_def() } else { u_def });
                 } else {
                     // u_def[n] = AND u_def[s] for all s in prev[n] | kill[n]
                     let u_def = (node
@@ -127,7 +136,7 @@ impl GenerationPass for LivenessPass {
                     let live_in = (node.live_out() - node.kill_reg()) | node.gen_reg();
 
                     changed |= node.set_live_in(live_in);
-                    changed |= node.set_u_def(u_def);
+                    changed |= node.set_u_def(if seen_before { u_def & node.u_def() } else { u_def });
                 }
                 visited.insert(node);
             }
